@@ -3,8 +3,8 @@
    second account creation by the account just created: amplification must not be possible along a chain).
    The same module emits the cases as scripts (ACTION_CONSTRAINT Emit), one JSON object per case:
      Mode = "c05": every (transaction type, context) row of Authz!Table x the access sets
-                   {}, ALL, Defined, every reading Req of the row, ALL \ Req, ALL \ {p}, Req \ {p}, {p} for p in Req,
-                   and {p}, ALL \ {p} for three seed-chosen p (quick) or all 64 p (thorough)
+                   {}, ALL, every reading Req of the row, ALL \ Req, ALL \ {p}, Req \ {p}, {p} for p in Req,
+                   and {p}, ALL \ {p} for two seed-chosen p (quick) or all 64 p (thorough)
      Mode = "c06": creator/requested pairs (ALL\{i},{i}), ({i},{i}), ({i,14},{i}), ({i,14},{j}), ({i,14},{i,j})
                    for all i and the sampled (quick) or all (thorough) j, on both creation requests;
                    disconnect requests x ban option x target access sets
@@ -25,11 +25,11 @@ On(m) == Mode = "all" \/ Mode = m
 Rand(n) == {i \in Priv : (((n + 3) * (i + 7) * 2654 + n * 97 + i * 1009 + Seed * 31) % 4093) % 2 = 1}   \* (< 2^31 for n <= 10000)
 
 (* ---- C05 cases ------------------------------------------------------------ *)
-Pick(r) == {(Seed * 7 + r.t + j * 11) % 64 : j \in 1..3}
+Pick(r) == {(Seed * 7 + r.t + j * 11) % 64 : j \in 1..2}
 Readings(r) == {r.req} \cup r.alts
 Mention(r) == UNION Readings(r)
 AccSets(r) ==
-  {{}, Priv, Defined, Mention(r), Priv \ Mention(r)}
+  {{}, Priv, Mention(r), Priv \ Mention(r)} \cup (IF Thorough THEN {Defined} ELSE {})
   \cup Readings(r)
   \cup {Priv \ A : A \in Readings(r)}
   \cup {Priv \ {p} : p \in Mention(r)}
